@@ -38,7 +38,27 @@ ASSUMES = [
 
 def regen(ctx):
     x = c20_t0.write_gen()
-    ctx.notes["t0"] = {k: (v if isinstance(v, str) else len(v)) for k, v in x.items()}
+    ctx.notes["t0_values"] = x
+
+
+PIN_NAMES = ["fix_whitespace: the three re.sub patterns and replacement templates, in order", "lines.NUMBERED_LIST_REGEX",
+             "wrap: the colon re.sub pattern and template", "wrap: keyword arguments of the textwrap.wrap call",
+             "wrap: keyword arguments of the textwrap.fill call", "wrap: numeric constants (0, 0.75, 1)",
+             "rst: the re.search pattern and the arguments of the wrap call"]
+
+
+def pins(ctx):
+    """T0: each literal regenerated from /repo equals the one the models were written against (compared inside coqc)."""
+    checks = [(n, f"match nth_error all_pins {i} with Some (name, ok) => String.eqb name {coq.s(n)} && ok | None => false end") for i, n in enumerate(PIN_NAMES)]
+    checks.append(("the pin list has no further entry", f"Nat.eqb (List.length all_pins) {len(PIN_NAMES)}"))
+    failing, errors, _ = coq.eval_checks("c20pins", "From GV Require Import Gen.C20Lit Proofs.C20Pins.", "", checks)
+    for n, _e in checks:
+        ctx.oblige(f"T0 pin: {n}", n not in failing and not errors, "; ".join(errors)[:600] or f"the literal read from {env.REPO} differs from the pinned one: {ctx.notes.get('t0_values', {})}", "T0")
+
+
+def novel_first(ctx):
+    """main.py reports at most five distinct violations: put those that match no candidate-defect class first."""
+    ctx.violations.sort(key=lambda v: v.get("signature") is not None)
 
 
 # ---------------------------------------------------------------- pure part
@@ -62,13 +82,13 @@ def rst_cases(prefix, n):
 
 
 def run_pure(ctx):
-    checks, _ = FW.run_cases(ctx, [("corpus", t) for t in FW.CORPUS] + fixws_cases("C20-fw", ctx.n(400, 6000), ctx.n(250, 4000), ctx.n(120, 1500)))
+    checks, _ = FW.run_cases(ctx, [("corpus", t) for t in FW.CORPUS] + fixws_cases("C20-fw", ctx.n(300, 6000), ctx.n(200, 4000), ctx.n(100, 1500)))
     FW.evaluate(ctx, "c20fw", "fix_whitespace on corpus and grammar texts", checks)
-    wcases = list(W.CORPUS) + [W.gen_case(env.rng("C20-wrap", i)) for i in range(ctx.n(900, 12000))]
+    wcases = list(W.CORPUS) + [W.gen_case(env.rng("C20-wrap", i)) for i in range(ctx.n(700, 12000))]
     wchecks = W.run_wrap(ctx, wcases)
     FW.evaluate(ctx, "c20wrap", "wrap on corpus and grammar comments x widths/offsets/indents", wchecks)
-    rchecks = W.run_rst(ctx, [("ends with quote\"", 72, 4, None), ("a `b`", 72, 4, None), ("", 72, 0, None)] + rst_cases("C20-rst", ctx.n(250, 3000)))
-    cchecks = W.run_contracts(ctx, ctx.n(250, 3000))
+    rchecks = W.run_rst(ctx, [("ends with quote\"", 72, 4, None), ("a `b`", 72, 4, None), ("", 72, 0, None)] + rst_cases("C20-rst", ctx.n(200, 3000)))
+    cchecks = W.run_contracts(ctx, ctx.n(150, 3000))
     FW.evaluate(ctx, "c20rst", "rst (plain path, quote guard, pandoc decision), textwrap contract, Metadata.doc, character classes", rchecks + cchecks)
 
 
@@ -139,7 +159,13 @@ def run_e2e(ctx, jobs=None, conventional=None):
             continue
         sig = D.hazard_signature(*hazard) if hazard else None
         pf = D.parse_failures(o["files"])
-        if pf:
+        if pf and comments is None:
+            # an API without any comment: whatever fails to parse is not C20's subject (e.g. a proto package without a namespace
+            # segment makes noxfile.py and the samples invalid); recorded, reported to the coordinator, not a C20 violation
+            ctx.features["e2e:comment-free-api-with-unparsable-files"] += 1
+            ctx.notes.setdefault("unrelated_parse_failures", []).append({"package": sorted({f.package for f in req.proto_file if f.name in req.file_to_generate}),
+                                                                         "files": [p_[0] for p_ in pf[:4]], "first": pf[0][1]})
+        elif pf:
             where = f" (comment {hazard[1]!r} on the {hazard[0]})" if hazard else ""
             ctx.violation(f"emitted module does not parse{where}: {pf[0][0]}: {pf[0][1]}; {len(pf)} file(s)", {**case, "parse_failures": pf[:6]}, sig)
         elif comments is not None:
@@ -161,11 +187,10 @@ def run_e2e(ctx, jobs=None, conventional=None):
             if k not in seen_r:
                 seen_r.add(k)
                 rst_cases_.append(k)
-    # the hazard texts would be reported twice: the pure oracles only see the texts of benign / grammar / conventional runs here
     cap = ctx.n(6000, 40000)
     fw_tagged.sort(key=lambda kt: len(kt[1]))
     checks, _ = FW.run_cases(ctx, fw_tagged, max_model_len=cap)
-    budget, kept = ctx.n(150000, 2000000), []
+    budget, kept = ctx.n(120000, 2000000), []
     for c in checks:                       # bound the total size handed to coqc
         budget -= len(c[1])
         if budget < 0:
@@ -184,9 +209,15 @@ def witnesses(ctx):
 
 
 def run(ctx):
+    import time
+    t0 = time.time()
+    pins(ctx)
     witnesses(ctx)
     run_pure(ctx)
+    t1 = time.time()
     run_e2e(ctx)
+    ctx.notes["seconds"] = {"coq_stage": round(t0 - ctx.t0, 1), "pure": round(t1 - t0, 1), "e2e": round(time.time() - t1, 1)}
+    novel_first(ctx)
 
 
 def replay(ctx, rep):
@@ -207,6 +238,7 @@ def replay(ctx, rep):
         run_e2e(ctx, jobs=[(c.get("what", "replay"), c["comments"], hazard)], conventional=0)
     else:
         run(ctx)
+    novel_first(ctx)
 
 
 def search(ctx, broken):
@@ -214,3 +246,4 @@ def search(ctx, broken):
     FW.run_cases(ctx, fixws_cases("C20-search-fw", 4000, 3000, 1000))
     W.run_wrap(ctx, [W.gen_case(env.rng("C20-search-wrap", i)) for i in range(12000)], kind="search")
     W.run_rst(ctx, rst_cases("C20-search-rst", 3000), kind="search")
+    novel_first(ctx)
